@@ -234,6 +234,21 @@ func c09CheckBatch(c c09BatchCase) h.Result {
 		r.Class("caller-has-one-buffer-per-argument")
 	}
 	onePK, oneMsg, oneSig := make([]byte, 0, 64), make([]byte, 0, 4096), make([]byte, 0, 256)
+	// ... and ONE Options object (with ONE custom VerifyOptions object) whose fields it overwrites before every call:
+	// whatever the verifier derives from the options belongs to the entry, not to the pointer it was handed
+	oneOpts, oneVO := &ed25519.Options{}, &ed25519.VerifyOptions{}
+	optsFor := func(o h.C09Opt) *ed25519.Options {
+		fresh := c09Options(o)
+		if !c.OneBuffer {
+			return fresh
+		}
+		*oneOpts = *fresh
+		if o.Preset == 0 && fresh.Verify != nil {
+			*oneVO = *fresh.Verify
+			oneOpts.Verify = oneVO
+		}
+		return oneOpts
+	}
 	resets, verifiesSinceChange := 0, 0
 	type held struct {
 		ent          int
@@ -316,11 +331,11 @@ func c09CheckBatch(c c09BatchCase) h.Result {
 					case 0:
 						v.Add(apk, amsg, asig)
 					case 1:
-						v.AddWithOptions(apk, amsg, asig, c09Options(b.Opt))
+						v.AddWithOptions(apk, amsg, asig, optsFor(b.Opt))
 					case 2:
 						v.AddExpanded(xk, amsg, asig)
 					default:
-						v.AddExpandedWithOptions(xk, amsg, asig, c09Options(b.Opt))
+						v.AddExpandedWithOptions(xk, amsg, asig, optsFor(b.Opt))
 					}
 					if c.Scribble {
 						for _, buf := range [][]byte{apk, amsg, asig} {
